@@ -401,7 +401,7 @@ var ignoreFiles = []string{".gitignore", "d/.gitignore", ".git/info/exclude", "d
 var patterns = []string{"b\n", "d/\n", "*.txt\n", "!x.txt\n", "/a\n", "e\n", "*.log\n", "!d/b\n", "d/*\n", "f\n", "a*\n", "/d/e/\n", "# c\n", "**/f\n"}
 
 var opKinds = []string{
-	"write", "write", "write", "write", "rm", "rm", "chmod+x", "chmod-x", "symlink", "mkdir", "touch", "touch", "sameSizeEdit",
+	"write", "write", "write", "write", "rm", "rm", "chmod+x", "chmod-x", "symlink", "mkdir", "touch", "touch", "sameSizeEdit", "sameSizeEditSubsec",
 	"gitAdd", "gitAdd", "gitAddAll", "gitAddN", "gitAddN", "gitRmCached", "gitCommit", "gitResetPath", "gitChmodIndex",
 	"goAdd", "goCommit", "ignore", "ignore", "gitAddF",
 }
@@ -580,7 +580,7 @@ func apply(d string, o Op, lab map[string]bool, sp []string) {
 				os.Chtimes(full, mt, mt)
 			}
 		}
-	case "sameSizeEdit": // same size, other bytes, mtime restored
+	case "sameSizeEdit", "sameSizeEditSubsec": // same size, other bytes, mtime restored (or moved within the same second)
 		if k := lkind(full); k == "file" || k == "exec" {
 			fi, err := os.Lstat(full)
 			b, err2 := os.ReadFile(full)
@@ -599,12 +599,26 @@ func apply(d string, o Op, lab map[string]bool, sp []string) {
 			tmp := full + ".c27tmp"
 			os.WriteFile(tmp, b, fi.Mode().Perm())
 			os.Chmod(tmp, fi.Mode().Perm())
-			os.Chtimes(tmp, fi.ModTime(), fi.ModTime())
+			mt := fi.ModTime()
+			if o.K == "sameSizeEditSubsec" {
+				// a quick edit: the new mtime differs from the staged one only below the second (and stays
+				// older than the index file, so the racy-entry guard does not force a re-hash)
+				ns := mt.Nanosecond()
+				if ns == 0 {
+					return
+				}
+				mt = mt.Add(-time.Duration(1 + (o.Q*7919)%ns))
+			}
+			os.Chtimes(tmp, mt, mt)
 			if os.Rename(tmp, full) != nil {
 				os.Remove(tmp)
 				return
 			}
-			lab["same-size-edit-mtime-restored"] = true
+			if o.K == "sameSizeEditSubsec" {
+				lab["same-size-edit-mtime-moved-within-the-second"] = true
+			} else {
+				lab["same-size-edit-mtime-restored"] = true
+			}
 		}
 	case "gitAdd":
 		gitx.Try(d, "add", "-A", "--", p)
